@@ -59,6 +59,8 @@ type omScenario struct {
 	Ops             [][]omOp // per marker
 	Behaviours      []int
 	Steer           []steerSpec // kinds: built-marks | resp-marks
+	InitFetchFaults int         // the first OffsetFetch answers say OFFSETS_LOAD_IN_PROGRESS (ManagePartition retries Metadata.Retry.Max times, then fails and is called again)
+	MetaRetryMax    int         // Metadata.Retry.Max (0 or 3)
 	ManualCommits   int
 }
 
@@ -144,6 +146,13 @@ func omScenarioFor(rng *rand.Rand, tier string) *omScenario {
 	if rng.Intn(3) == 0 {
 		sc.Retention = time.Duration(1+rng.Intn(100)) * time.Second
 	}
+	sc.MetaRetryMax = 3
+	if rng.Intn(4) == 0 {
+		sc.MetaRetryMax = 0
+	}
+	if rng.Intn(4) == 0 {
+		sc.InitFetchFaults = 1 + rng.Intn(5)
+	}
 	sc.Initial = sarama.OffsetNewest
 	if rng.Intn(2) == 0 {
 		sc.Initial = sarama.OffsetOldest
@@ -164,10 +173,16 @@ func omScenarioFor(rng *rand.Rand, tier string) *omScenario {
 	sc.Ops = make([][]omOp, sc.Markers)
 	cur := make([]int64, sc.Parts)
 	copy(cur, sc.Stored)
+	// most applications pass the same metadata string with every mark and reset: then only the
+	// offsets tell positions apart (a reset to a lower offset carries nothing else that is new)
+	constMeta := rng.Intn(5) < 2
 	for i := 0; i < total; i++ {
 		g := rng.Intn(sc.Markers)
 		p := rng.Intn(sc.Parts)
 		op := omOp{Part: p, Meta: fmt.Sprintf("m%d", id)}
+		if constMeta {
+			op.Meta = ""
+		}
 		id++
 		switch x := rng.Intn(10); {
 		case x < 6:
@@ -255,6 +270,7 @@ func (sc *omScenario) describe() map[string]interface{} {
 }
 
 type omResult struct {
+	manageErrs          int64 // ManagePartition calls that returned an error while the coordinator was (made to be) loading
 	sc                  *omScenario
 	newErr              error
 	events              []omEvent
@@ -315,7 +331,11 @@ func runOM(sc *omScenario, rng *rand.Rand) *omResult {
 
 	var bi int32
 	var closing, ci int32
+	initFaults := int32(sc.InitFetchFaults)
 	sim.OnGroup = func(ctx *sarama.VSimGroupCtx) sarama.VSimGroupAction {
+		if ctx.Kind == "offset-fetch" && atomic.AddInt32(&initFaults, -1) >= 0 {
+			return sarama.VSimGroupAction{Kind: sarama.VGError, Code: sarama.ErrOffsetsLoadInProgress}
+		}
 		if ctx.Kind != "commit" {
 			return sarama.VSimGroupAction{}
 		}
@@ -370,7 +390,7 @@ func runOM(sc *omScenario, rng *rand.Rand) *omResult {
 	conf.Consumer.Offsets.Retention = sc.Retention
 	conf.Consumer.Offsets.Initial = sc.Initial
 	conf.Metadata.Retry.Backoff = time.Millisecond
-	conf.Metadata.Retry.Max = 3
+	conf.Metadata.Retry.Max = sc.MetaRetryMax
 	conf.Metadata.RefreshFrequency = 0
 	conf.Net.ReadTimeout = 100 * time.Millisecond
 	client, err := sarama.NewClient(sim.Addrs(), conf)
@@ -389,6 +409,11 @@ func runOM(sc *omScenario, rng *rand.Rand) *omResult {
 	for p := 0; p < sc.Parts; p++ {
 		tn, tp := sc.topicOf(p)
 		pom, err := om.ManagePartition(tn, tp)
+		for try := 0; err != nil && sc.InitFetchFaults > 0 && try < 8; try++ {
+			// the coordinator was still loading and the retry budget ran out: an error, not a position; ask again
+			atomic.AddInt64(&res.manageErrs, 1)
+			pom, err = om.ManagePartition(tn, tp)
+		}
 		if err != nil {
 			res.newErr = fmt.Errorf("ManagePartition: %v", err)
 			return res
@@ -586,6 +611,7 @@ func judgeOM(res *omResult) proto.Rec {
 			}
 		}
 	}
+	rec.Obs["manage_partition_errors_while_loading"] = atomic.LoadInt64(&res.manageErrs)
 	rec.Obs["commit_requests_built"] = int64(len(flushes))
 	// every commit request the coordinator received equals the one built before it
 	var commits []sarama.VSimGroupEvent
